@@ -164,6 +164,11 @@ def name_failures(ur):
             if o and o['k'] == 'src':
                 own_line = s['line_start']
                 break
+        if own_line is None and ours and f['kind'] == 'requires@call':
+            # a call made from a proof hint: the caller is where the primary span (the call) sits, not where the violated clause is written
+            site = [s for s in ours if s.get('primary') and 'failed precondition' not in (s.get('label') or '')]
+            if site:
+                own_line = site[0]['line_start']
         if own_line is None and ours:
             own_line = ours[-1]['line_start'] if f['kind'] == 'ensures' else ours[0]['line_start']
         fn, rec = owner_of(ur, own_line or f['line'], lines)
